@@ -445,26 +445,66 @@ Definition tag_ok (t : leaf_tag) : bool :=
   | None => negb (supported v)
   end.
 
+(* ---------- save_checkpoint / load_latest_checkpoint sequences ---------- *)
+(* a checkpoint directory: (round, state id) ascending by round; file contents are opaque
+   (pickle is a trusted inverse pair), so a state is represented by its identity *)
+Inductive ck_op := CkSave (round state keep : Z) | CkLoad.
+
+Fixpoint ck_ins (r s : Z) (d : list (Z * Z)) : list (Z * Z) :=
+  match d with
+  | [] => [(r, s)]
+  | e :: t => if r <? fst e then (r, s) :: d else e :: ck_ins r s t
+  end.
+
+(* save_checkpoint(root, state, round_num, keep): the file checkpoint_<round> is (over)written
+   through a temporary name + rename, then `_get_checkpoint_paths(base)[:-keep]` are removed *)
+Definition ck_save (d : list (Z * Z)) (r s keep : Z) : list (Z * Z) :=
+  let d1 := ck_ins r s (filter (fun e => negb (fst e =? r)) d) in
+  let n := Z.of_nat (length d1) in
+  let removed := if 0 <? keep then Z.max 0 (n - keep) else if keep =? 0 then 0 else Z.min n (- keep) in
+  skipn (Z.to_nat removed) d1.
+
+(* load_latest_checkpoint: the highest round present, None when there is none *)
+Definition ck_load (d : list (Z * Z)) : option (Z * Z) :=
+  match d with [] => None | _ => Some (last d (0, 0)) end.
+
+Fixpoint ck_run (ops : list ck_op) (d : list (Z * Z)) : list (option (Z * Z)) :=
+  match ops with
+  | [] => []
+  | CkSave r s k :: t => ck_run t (ck_save d r s k)
+  | CkLoad :: t => ck_load d :: ck_run t d
+  end.
+
 (* ---------- correspondence ---------- *)
 Definition client := (list Z * (list (list Z) * list value))%type.
 
 Inductive C16_case :=
 | CValue (v : value)                  (* msgpack_deserialize(msgpack_serialize(v)) *)
-| CDb (cs : list client).             (* SQLiteFederatedDataBuilder.add_many(cs) -> SQLiteFederatedData *)
+| CDb (cs : list client)              (* SQLiteFederatedDataBuilder.add_many(cs) -> SQLiteFederatedData *)
+| CCkpt (ops : list ck_op).           (* save_checkpoint / load_latest_checkpoint sequence in a fresh directory *)
 
 Inductive C16_obs :=
 | ORejectSer                    (* msgpack_serialize / add_many raised *)
 | ORejectDes                    (* serialised, but msgpack_deserialize / the reader raised *)
 | OOk (v : value)               (* the decoded value, arrays in native C form *)
-| ODb (ids : list (list Z)) (sizes : list (list Z * nat)) (clients : list (list Z * value)).
+| ODb (ids : list (list Z)) (sizes : list (list Z * nat)) (clients : list (list Z * value))
+| OCkpt (loads : list (option (Z * Z))).     (* per load: (round, id of the state that came back) *)
 
 Definition idv_eqb (a b : list Z * value) := lz_eqb (fst a) (fst b) && value_eqb (snd a) (snd b).
 Definition idn_eqb (a b : list Z * nat) := lz_eqb (fst a) (fst b) && Nat.eqb (snd a) (snd b).
 
 Definition client_value (c : client) : value := VDict (fst (snd c)) (snd (snd c)).
 
+Definition ozz_eqb (a b : option (Z * Z)) : bool :=
+  match a, b with
+  | Some x, Some y => (fst x =? fst y) && (snd x =? snd y)
+  | None, None => true
+  | _, _ => false
+  end.
+
 Definition C16_agree (c : C16_case) (o : C16_obs) : bool :=
   match c with
+  | CCkpt ops => match o with OCkpt loads => list_beq ozz_eqb (ck_run ops []) loads | _ => false end
   | CValue c =>
       wf c &&
       match o, encode c with
